@@ -2,6 +2,7 @@
 (never by an oracle).  Nothing is hard-coded about ombott's private names: the walker descends through
 containers, __dict__ and __slots__, so a refactoring changes the shape of the canonical form, not its validity.
 """
+import io
 import re
 import types
 import threading
@@ -81,8 +82,30 @@ class Canon:
             return ('E', type(o).__qualname__, c(o.args, memo), tb,
                     c(o.__context__, memo) if o.__context__ is not None else None,
                     tuple(sorted(((k, c(v, memo)) for k, v in d.items()), key=repr)))
-        if isinstance(o, (types.GeneratorType, types.FrameType, types.TracebackType, types.CodeType)):
+        if isinstance(o, types.GeneratorType):
+            fr = o.gi_frame
+            if fr is None:
+                return ('G', o.__qualname__, 'done')
+            return ('G', o.__qualname__, fr.f_lasti,
+                    tuple(sorted(((k, c(v, memo)) for k, v in fr.f_locals.items()), key=repr)))
+        if isinstance(o, (types.FrameType, types.TracebackType, types.CodeType)):
             return ('X', type(o).__name__)
+        if isinstance(o, io.BytesIO):
+            extra = getattr(o, '__dict__', None)
+            return ('BIO', o.getvalue() if not o.closed else None, o.tell() if not o.closed else None,
+                    c(extra, memo) if extra else None)
+        if isinstance(o, io.IOBase):
+            if getattr(o, 'closed', False):
+                return ('IO', type(o).__name__, 'closed')
+            try:
+                pos = o.tell()
+                o.seek(0)
+                data = o.read()
+                o.seek(pos)
+            except Exception:
+                return ('IO', type(o).__name__, 'opaque')
+            extra = getattr(o, '__dict__', None)
+            return ('IO', type(o).__name__, data, pos, c({k: v for k, v in extra.items() if k != 'name'}, memo) if extra else None)
         d = {}
         od = getattr(o, '__dict__', None)
         if isinstance(od, dict):
